@@ -18,6 +18,7 @@ RULE = (
     'sets over shapes (N), (b,N), (b1,b2,N) that leave >=1 dimension; (moments, thorough) 200k samples within 6 s.e.; distinct = distinct cell '
     '(all but seed); non-trivial iff covariance has non-zero off-diagonal (or kind is index selecting < all)'
     '; pass 5: sums of one object with itself; exact jitter amounts (tiny, zero, negative); exact log_prob path and scale_tril above max_cholesky_size'
+    '; pass 6: KL divergence with the event size exactly at max_cholesky_size and Lanczos rank 2; index tensors must not be mutated'
 )
 REQUIRED = ["log_prob", "kl", "kl_identical_zero", "rsample_LLt", "index_mean", "index_covariance", "variance", "mul_scalar", "add_mvn"]
 ASSUMPTIONS = ["random SPD covariances with condition number < 1e3; event sizes <= 6; stochastic fast-path pieces (SLQ) are not reached at these sizes (Cholesky below max_cholesky_size)"]
